@@ -210,6 +210,11 @@ class Execution:
         self.nlev = setting.number_of_node_levels
         self.npr = setting.number_of_nodes_per_root_node
         self.nroots = setting.number_of_root_nodes
+        if self.info.get("preset_counters") and hasattr(self.sch, "_minimal_valid_counter"):
+            # a run that has already trashed ~2^32 events per handler: the lazy-deletion counters of the heap scheduler
+            # are about to leave the range of the C integer (OverflowError -> delete_events -> counter reset)
+            for h in self.act.get_event_handlers():
+                self.sch._minimal_valid_counter[h] = int(self.info["preset_counters"])
         self.violations = []  # (key, message)
         self.commits = []  # (handler class, tagger tag, (q, r) event time, out-state digestable)
         self.writes = []  # (output handler name, (q, r) time of the triggering event, snapshot)
@@ -351,6 +356,19 @@ class Execution:
             h = real_succ()
             ex.current = h
             ex.current_time = ex.candidate.get(h)
+            if "C08" in ex.mon:
+                # the time under which the scheduler delivers the handler is the time of its live candidate (an older,
+                # trashed candidate of the same handler must not be what is delivered)
+                last = getattr(sch, "_last_returned_event", None)
+                if last is not None and last[0] is not None:
+                    got = (last[0].quotient, last[0].remainder)
+                    if h not in ex.candidate:
+                        ex.V("C08:dead-candidate", "the scheduler delivers %s at %r although its candidate was trashed"
+                             % (type(h).__name__, got))
+                    elif got != ex.candidate[h]:
+                        ex.V("C08:stale-time", "the scheduler delivers %s at time %r, its live candidate (computed from "
+                             "the current in-state) is at %r: an older candidate of this handler survived"
+                             % (type(h).__name__, got, ex.candidate[h]))
             return h
         sch.get_succeeding_event = succ
 
